@@ -13,6 +13,7 @@ mod cancel;
 mod sasl;
 mod txn;
 mod specenc;
+mod delivery;
 mod codec;
 mod common;
 mod connlife;
@@ -91,6 +92,7 @@ fn main() {
         "sasl" => sasl::main(&opts),
         "txn" => txn::main(&opts),
         "specenc" => specenc::main(&opts),
+        "delivery" => delivery::main(&opts),
         "failprop" => failprop::main(&opts),
         "hostile" => hostile::main(&opts),
         "limits" => limits::main(&opts),
